@@ -153,3 +153,21 @@ impl CommitterKey {
 //@body
 //@end
 }
+
+//@lemma props=C02
+// C02 for MarlinKZG10::check without degree bounds: two value vectors that differ at position i only and are both accepted (postcondition marlin_pc.check.relation)
+// agree at i, provided the challenge of that position is non-zero.  (With degree bounds the combined commitment depends on the values as well: not covered.)
+pub proof fn lemma_marlin_check_value_unique_at(vk: &VerifierKey, cs: Seq<&LabeledCommitment<Commitment>>, point: Fr, vs: Seq<Fr>, vs2: Seq<Fr>, pr: &kzg10::Proof, s: SS, i: int)
+    requires vk.vk.g@ != f_zero(), vk.vk.h@ != f_zero(), vs.len() == vs2.len(), 0 <= i < min(cs.len(), vs.len()),
+        forall|j: int| 0 <= j < min(cs.len(), vs.len()) ==> (#[trigger] cs[j]).degree_bound is None,
+        forall|j: int| 0 <= j < min(cs.len(), vs.len()) && j != i ==> vs[j]@ == vs2[j]@,
+        sp_chal(s, nsq(cs, i as nat)) != f_zero(),
+        kzg10::kzg_relation_raw(&vk.vk, acc_c(cs, vs, vk, s, min(cs.len(), vs.len())), point, acc_v(cs, vs, s, min(cs.len(), vs.len())), pr),
+        kzg10::kzg_relation_raw(&vk.vk, acc_c(cs, vs2, vk, s, min(cs.len(), vs.len())), point, acc_v(cs, vs2, s, min(cs.len(), vs.len())), pr),
+    ensures vs[i]@ == vs2[i]@
+{
+    let n = min(cs.len(), vs.len());
+    lemma_acc_c_no_bounds(cs, vs, Some(vk), s, n); lemma_acc_c_no_bounds(cs, vs2, Some(vk), s, n);
+    kzg10::lemma_kzg_raw_value_unique(&vk.vk, acc_c0(cs, s, n), point, acc_v(cs, vs, s, n), acc_v(cs, vs2, s, n), pr);
+    lemma_acc_v_unique_at(cs, vs, vs2, s, n, i);
+}
